@@ -519,3 +519,11 @@ package ship
 //@ func (c *ShipConnection).shipModelFromMessage(message)
 //@   ensures result.1 == nil ==> result.0 != nil
 //@   modifies $decoded
+
+// ---- construction ----
+//@ func NewConnectionHandler(dataProvider, dataHandler, role, localShipID, remoteSki, remoteShipId) [C04,C01,C09]
+//@   requires validRole(role) && dataProvider != nil && dataHandler != nil
+//@   ensures result != nil && result.role == role && result.remoteSKI == remoteSki && result.remoteShipID == remoteShipId && result.localShipID == localShipID
+//@   ensures result.infoProvider == dataProvider && result.dataWriter == dataHandler
+//@   ensures [C04] N1-start: result.smeState == model.CmiStateInitStart && !result.handshakeTimerRunning && result.dataReader == nil
+//@   ensures [C11] N2-open: !result.shutdownOnce.$done && @REP(result) == 0 && !result.$closeScheduled
